@@ -10,6 +10,7 @@ import (
 	"strings"
 	"sync"
 
+	proxyv1alpha1 "github.com/kubewharf/kubegateway/pkg/apis/proxy/v1alpha1"
 	"github.com/kubewharf/kubegateway/pkg/ratelimiter/clientsets"
 	"github.com/kubewharf/kubegateway/pkg/ratelimiter/limiter/elector"
 	limitutil "github.com/kubewharf/kubegateway/pkg/ratelimiter/util"
@@ -42,6 +43,45 @@ func world() *httptest.Server {
 		}))
 	}
 	return worldTS
+}
+
+// newGateway: a gateway-side clientSets in a given state (shard count, shard -> leader). The state is established the
+// way a gateway gets it - by a real sync() from a server publishing it - never by writing its fields.
+func newGateway(cfg *rest.Config, lookup clientsets.LookupFunc, shardCount int, leaders map[int]string) clientsets.ClientSets {
+	g := clientsets.VerifC13NewClientSets(cfg, lookup)
+	if shardCount == 0 && len(leaders) == 0 {
+		return g
+	}
+	info := proxyv1alpha1.RateLimitServerInfo{ShardCount: int32(shardCount)}
+	var keys []int
+	for k := range leaders {
+		keys = append(keys, k)
+	}
+	sort.Ints(keys)
+	for _, k := range keys {
+		info.Endpoints = append(info.Endpoints, proxyv1alpha1.EndpointInfo{ShardID: int32(k), Leader: leaders[k]})
+	}
+	b, _ := json.Marshal(&info)
+	ts := world()
+	worldMu.Lock()
+	worldInfo = b
+	worldMu.Unlock()
+	clientsets.VerifC13SetLookup(g, func(string) []string { return []string{ts.URL} })
+	clientsets.VerifC13Sync(g)
+	clientsets.VerifC13SetLookup(g, lookup)
+	return g
+}
+
+// A stricter gateway (one that declines to answer where the property does not oblige it to) is no violation: the
+// judges speak when the gateway NAMES a shard / ADDRESSES a server (or says it knows none although it has synced),
+// not when it answers some other error.
+func namesShard(sid string) bool {
+	_, err := strconv.Atoi(sid)
+	return err == nil || sid == "notSynced"
+}
+
+func addresses(cf string) bool {
+	return strings.HasPrefix(cf, "url:") || strings.HasPrefix(cf, "noLeader:") || cf == "notSynced"
 }
 
 func closeWorld() {
@@ -191,7 +231,7 @@ func runGateway(c *rig.Ctx, cs Case, m mode) int {
 	}
 
 	ts := world()
-	g := clientsets.VerifC13NewClientSets(&rest.Config{Host: ts.URL}, func(string) []string { return []string{ts.URL} }, int(cs.ShardCount), eps)
+	g := newGateway(&rest.Config{Host: ts.URL, QPS: 10000, Burst: 10000}, func(string) []string { return []string{ts.URL} }, int(cs.ShardCount), eps)
 	var srv *env
 	if cs.Sync != nil {
 		var err error
@@ -238,12 +278,12 @@ func runGateway(c *rig.Ctx, cs Case, m mode) int {
 		// judge: the gateway addresses the server that the limiter server names as leader of the upstream's shard
 		if srv != nil {
 			ss := implShard(name, int(cs.Sync.N))
-			if sid != ss {
+			if sid != ss && namesShard(sid) {
 				fail("judge", "c13.sides-disagree", fmt.Sprintf("after sync the gateway maps %q to shard %s, the server (n=%d) to %s", name, sid, cs.Sync.N, ss), sid, ss)
 				continue
 			}
 			if s, err := strconv.Atoi(ss); err == nil {
-				if l, known := srvLeaders[s]; known && l != "" && cf != "url:"+l {
+				if l, known := srvLeaders[s]; known && l != "" && cf != "url:"+l && addresses(cf) {
 					fail("judge", "c13.route", fmt.Sprintf("upstream %q is in shard %d led by %s, but ClientFor answers %s", name, s, l, cf), cf, l)
 					continue
 				}
@@ -251,7 +291,7 @@ func runGateway(c *rig.Ctx, cs Case, m mode) int {
 		}
 		// self-consistency without a server: the client is the one of leaderEndpoints[ShardIDFor]
 		if s, err := strconv.Atoi(sid); err == nil {
-			if l, known := leaders[s]; known && cf != "url:"+expectURL(l) {
+			if l, known := leaders[s]; known && cf != "url:"+expectURL(l) && addresses(cf) {
 				fail("judge", "c13.route", fmt.Sprintf("gateway knows %q as leader of shard %d of %q, but ClientFor answers %s", l, s, name, cf), cf, l)
 				continue
 			}
